@@ -14,7 +14,7 @@ CFG = {'assumptions': ["64*len(bm) < 2^31 (Go's int32 positions cannot overflow;
                                'query, drop, GC',
         'bitmap.Next/session': 'bitmap.NextOne / bitmap.PrevOne and in-place bit sets (bm[i>>6] |= 1<<(i&63)) in order '
                                'on ONE slice',
-        'bitmap.NextOne': 'bitmap.NextOne',
+        'bitmap.NextOne': 'bitmap.NextOne (1 case in 16 repeated by 3 callers at once next to 3 other readers of the same bitmap)',
         'bitmap.NextOne/ends': 'bitmap.NextOne (for every end in [i, 64*len])',
         'bitmap.NextOne/huge': 'bitmap.NextOne on a bitmap of 2^17+ words (model evaluated by the suffix scan '
                                'NextOneFast = NextOne)',
@@ -24,7 +24,7 @@ CFG = {'assumptions': ["64*len(bm) < 2^31 (Go's int32 positions cannot overflow;
         'bitmap.NextPrev/dual': 'NextOne, PrevOne, PrevOne(bm,i,n+1), NextOne(bm,p,end), PrevOne(bm,i,n), '
                                 'NextOne(bm,p+1,end)',
         'bitmap.Of/walk': 'bitmap.Of(ps[, n]) then the NextOne walk and the PrevOne walk of the whole result',
-        'bitmap.PrevOne': 'bitmap.PrevOne',
+        'bitmap.PrevOne': 'bitmap.PrevOne (1 case in 16 repeated by 3 callers at once next to 3 other readers of the same bitmap)',
         'bitmap.PrevOne/iter': 'loop "for end > i { p := PrevOne(bm,i,end); if p < 0 {break}; out = append(out,p); end '
                                '= p }"',
         'bitmap.PrevOne/sparse': 'bitmap.PrevOne (run-length coded bitmap argument; model = int32 model PrevOne32)',
